@@ -228,10 +228,11 @@ def raw_probes(pr):
     for fn in MONO:
         for n in range(0, 4):
             names = FIELD_LEAVES + (["ci", "cb", "ce", "pi", "pe"] if n == 1 else [])
-            for v in itertools.product(names, repeat=n) if n <= 2 else \
-                    [x for x in itertools.product(FIELD_LEAVES, repeat=3)
-                     if sum(1 for y in x if y != "fi") <= 1 or len(set(x)) == 1]:
+            for v in itertools.product(names, repeat=n):
                 out.append((fn, tuple(v)))
+        out.append((fn, ("fi", "fi", "ci")))
+        out.append((fn, ("ci", "fi", "fi")))
+        out.append((fn, ("fi", "ci", "fi")))
     res = []
     for fn, names in out:
         res.append((fn, names, pr.run(fn, names)))
@@ -271,7 +272,22 @@ def derive_table(pr, probes, module_probe):
             raise TranslatorError("arity set of %s not an interval: %s" % (fn.name, arities))
         res = R[(fn, (good,) * arities[0])][5:-1]
         mx = "None" if arities[-1] == 3 else "(Some %d)" % arities[-1]
-        mono.append("(%s, mk_msig %s %s %d %s)" % (FN[fn], res, arg, arities[0], mx))
+        # how many leading arguments are inspected at all
+        bad = {"fi": "fb" if arg.startswith("(AKind") else "ci", "fb": "fi"}[good]
+        inspected = []
+        for i in range(3):
+            v = [good] * 3
+            v[i] = bad
+            inspected.append(R[(fn, tuple(v))] == "(TErr [%d])" % i)
+        if inspected == [True, True, True]:
+            chk = "None"
+        elif inspected == [True, True, False]:
+            chk = "(Some 2)"
+        elif inspected == [True, False, False]:
+            chk = "(Some 1)"
+        else:
+            raise TranslatorError("inspected-argument pattern of %s: %s" % (fn.name, inspected))
+        mono.append("(%s, mk_msig %s %s %s %d %s)" % (FN[fn], res, arg, chk, arities[0], mx))
     T["mono"] = "[" + "; ".join(mono) + "]"
     kleaf = {"KInt": "fi", "KBool": "fb", "KEnum": "fe", "KOpaque": "fo"}
 
@@ -731,6 +747,368 @@ def _analyse_c13(args):
         mt = ModuleTranslator(ir).translate()
         out["coq"] = mt.coq_input()
         out["items"] = [(l, s, w) for _, l, s, w in mt.items]
+    except OutOfModel as ex:
+        out["oom"] = str(ex)
+    except TranslatorError as ex:
+        out["oom"] = "TRANSLATOR:" + str(ex)
+    return out
+
+
+# ============================================================================
+# C14: tables, layout translator
+# ============================================================================
+def coq_str(s):
+    for ch in s:
+        if not (32 <= ord(ch) < 127):
+            raise OutOfModel("non-printable-character-in-name")
+    return '"' + s.replace('"', '""') + '"'
+
+
+PRELUDE = {"UInt": "PUInt", "Int": "PInt", "Bcd": "PBcd", "Flag": "PFlag", "Float": "PFloat"}
+_SCOPE_VARS = {
+    "_MODULE_ATTRIBUTES": "ScModule", "_STRUCT_ATTRIBUTES": "ScStruct", "_BITS_ATTRIBUTES": "ScBits",
+    "_ENUM_ATTRIBUTES": "ScEnum", "_EXTERNAL_ATTRIBUTES": "ScExternal",
+    "_STRUCT_PHYSICAL_FIELD_ATTRIBUTES": "ScPhysField", "_STRUCT_VIRTUAL_FIELD_ATTRIBUTES": "ScVirtField",
+}
+
+
+def attribute_tables():
+    """Attribute type/scope tables by import + introspection of attribute_checker (fail closed)."""
+    from compiler.front_end import attribute_checker as ac
+    from compiler.util import attribute_util as au
+    types = []
+    for name, checker in sorted(ac._ATTRIBUTE_TYPES.items()):
+        if checker is au.INTEGER_CONSTANT:
+            q = "QIntConst"
+        elif checker is au.BOOLEAN_CONSTANT:
+            q = "QBoolConst"
+        elif checker is au.BOOLEAN:
+            q = "QBool"
+        elif checker is au.STRING:
+            q = "QString"
+        elif getattr(checker, "__name__", "") == "_string_from_list" and checker.__closure__:
+            vals = None
+            for c in checker.__closure__:
+                if isinstance(c.cell_contents, (set, frozenset, list, tuple)):
+                    vals = sorted(c.cell_contents)
+            if vals is None:
+                raise TranslatorError("string_from_list closure of %s not understood" % name)
+            q = "(QOneOf [%s])" % "; ".join(coq_str(v) for v in vals)
+        elif checker is ac._valid_back_ends:
+            q = "QUnmodelled"
+        else:
+            raise TranslatorError("attribute type checker of %r not understood: %r" % (name, checker))
+        types.append("(%s, %s)" % (coq_str(name), q))
+    scopes = []
+    seen_vars = set()
+    for var, sc in _SCOPE_VARS.items():
+        if not hasattr(ac, var):
+            raise TranslatorError("attribute_checker.%s missing" % var)
+        spec = getattr(ac, var)
+        seen_vars.add(var)
+        scopes.append("(%s, [%s])" % (sc, "; ".join("(%s, %s)" % (coq_str(n), "true" if d else "false")
+                                                   for n, d in sorted(spec))))
+    others = [v for v in dir(ac) if v.endswith("_ATTRIBUTES") and v not in seen_vars]
+    if others:
+        raise TranslatorError("unknown attribute scope tables: %s" % others)
+    # how normalize_and_verify wires them: enum values get no table
+    import inspect
+    src = inspect.getsource(ac.normalize_and_verify)
+    for var in _SCOPE_VARS:
+        if var not in src:
+            raise TranslatorError("%s not passed to check_attributes_in_ir" % var)
+    if "enum_value_attributes" in src:
+        raise TranslatorError("enum value attributes are now checked by the front end (model has none)")
+    return "(mk_tabs [%s] [%s])" % ("; ".join(types), "; ".join(scopes))
+
+
+def reserved_words(repo):
+    words = []
+    path = os.path.join(repo, "compiler", "front_end", "reserved_words")
+    for line in open(path).read().splitlines():
+        s = line.partition("#")[0].strip()
+        if not s or s.startswith("--"):
+            continue
+        if s not in words:
+            words.append(s)
+    from compiler.front_end import constraints
+    if set(words) != set(constraints.get_reserved_word_list()):
+        raise TranslatorError("reserved_words file and constraints.get_reserved_word_list() disagree")
+    return words
+
+
+_CMPOP = {FM.EQUALITY: "CEq", FM.INEQUALITY: "CNe", FM.LESS: "CLt", FM.LESS_OR_EQUAL: "CLe",
+          FM.GREATER: "CGt", FM.GREATER_OR_EQUAL: "CGe"}
+
+
+def req_expr(e):
+    """static_requirements expression -> Bounds.Model.expr with (EVar 0) = $static_size_in_bits."""
+    w = e.which_expression
+    if w == "constant":
+        return "(EConst %s)" % _z(e.constant.value)
+    if w == "boolean_constant":
+        return "(EBool %s)" % ("true" if e.boolean_constant.value else "false")
+    if w == "builtin_reference":
+        n = e.builtin_reference.canonical_name.object_path[0]
+        if n == "$static_size_in_bits":
+            return "(EVar 0)"
+        if n == "$is_statically_sized":
+            return "(EBVar 0)"
+        raise TranslatorError("builtin %s" % n)
+    if w == "function":
+        f = e.function.function
+        a = [req_expr(x) for x in e.function.args]
+        if f in _CMPOP and len(a) == 2:
+            return "(ECmp %s %s %s)" % (_CMPOP[f], a[0], a[1])
+        if f in (FM.AND, FM.OR) and len(a) == 2:
+            return "(EBop %s %s %s)" % ("BAnd" if f == FM.AND else "BOr", a[0], a[1])
+        if f == FM.ADDITION:
+            return "(EAdd %s %s)" % tuple(a)
+        if f == FM.SUBTRACTION:
+            return "(ESub %s %s)" % tuple(a)
+        if f == FM.MULTIPLICATION:
+            return "(EMul %s %s)" % tuple(a)
+        raise TranslatorError("function %s in static_requirements" % f)
+    raise TranslatorError("expression %s in static_requirements" % w)
+
+
+def prelude_table():
+    """(req function term, fixed function term) regenerated from prelude.emb through the real front end."""
+    st, ir = compile_emb("struct Zz:\n  0 [+1]  UInt  q\n")
+    if st != "ok":
+        raise TranslatorError("trivial module does not compile")
+    pre = [m for m in ir.module if m.source_file_name == ""]
+    if len(pre) != 1:
+        raise TranslatorError("prelude module not found")
+    found = {}
+    for td in pre[0].type:
+        name = td.name.name.text
+        if not td.has_field("external"):
+            raise TranslatorError("prelude type %s is not external" % name)
+        if name not in PRELUDE:
+            raise TranslatorError("unknown prelude type %s" % name)
+        req = ir_util.get_attribute(td.attribute, "static_requirements")
+        fixed = ir_util.get_integer_attribute(td.attribute, "fixed_size_in_bits")
+        unit = ir_util.get_integer_attribute(td.attribute, "addressable_unit_size")
+        if unit != 1:
+            raise TranslatorError("prelude type %s has addressable unit %r" % (name, unit))
+        if req is None:
+            raise TranslatorError("prelude type %s has no static_requirements" % name)
+        found[name] = (req_expr(req.expression), fixed)
+    if set(found) != set(PRELUDE):
+        raise TranslatorError("prelude types changed: %s" % sorted(found))
+    reqf = "(fun p => match p with %s end)" % " | ".join("%s => %s" % (PRELUDE[n], found[n][0]) for n in sorted(found))
+    fixf = "(fun p => match p with %s end)" % " | ".join(
+        "%s => %s" % (PRELUDE[n], "None" if found[n][1] is None else "Some %s" % _z(found[n][1])) for n in sorted(found))
+    return reqf, fixf
+
+
+_BORDER = {"LittleEndian": "BLittle", "BigEndian": "BBig", "Null": "BNull"}
+
+
+class LayoutTranslator:
+    """IR stopped before normalize_and_verify -> EmbossV.Layout.Model.module term."""
+
+    def __init__(self, ir):
+        self.ir = ir
+        self.mod = ir.module[0]
+        self.enum_idx, self.struct_idx = {}, {}
+        self.enums, self.structs = [], []   # (typedef, defaults path)
+
+    def collect(self, td, path):
+        own = self.default_border(td.attribute)
+        p = path + [own]
+        key = tuple(td.name.canonical_name.object_path)
+        if td.has_field("enumeration"):
+            self.enum_idx[key] = len(self.enums)
+            self.enums.append(td)
+        elif td.has_field("structure"):
+            self.struct_idx[key] = len(self.structs)
+            self.structs.append((td, p))
+        elif td.has_field("external"):
+            raise OutOfModel("user-defined-external")
+        for sub in td.subtype:
+            self.collect(sub, p)
+
+    def default_border(self, attrs):
+        for a in attrs:
+            if a.is_default and a.name.text == "byte_order" and not (a.back_end is not None and a.back_end.text):
+                if a.value.has_field("string_constant"):
+                    return _BORDER.get(a.value.string_constant.text, "BNull")
+        return None
+
+    def attrs(self, attrs):
+        out = []
+        for a in attrs:
+            if a.back_end is not None and a.back_end.text:
+                continue     # other back ends are skipped by the front end's check
+            v = a.value
+            if v.has_field("string_constant"):
+                val = "(AVString %s)" % coq_str(v.string_constant.text)
+            elif v.has_field("expression"):
+                t = v.expression.type
+                w = t.which_type if t is not None else None
+                if w == "integer":
+                    val = "(AVInt %s)" % ("true" if ir_util.is_constant(v.expression) else "false")
+                elif w == "boolean":
+                    val = "(AVBool %s)" % ("true" if t.boolean.has_field("value") else "false")
+                else:
+                    val = "AVExpr"
+            else:
+                raise TranslatorError("attribute value kind")
+            out.append("(mk_attr %s %s %s)" % (coq_str(a.name.text), "true" if a.is_default else "false", val))
+        return "[" + "; ".join(out) + "]"
+
+    def tref(self, ref):
+        cn = ref.canonical_name
+        key = tuple(cn.object_path)
+        if cn.module_file == "":
+            if len(key) == 1 and key[0] in PRELUDE:
+                return "(RPre %s)" % PRELUDE[key[0]]
+            raise OutOfModel("prelude-type-" + ".".join(key))
+        if cn.module_file != self.mod.source_file_name:
+            raise OutOfModel("imported-type")
+        if key in self.enum_idx:
+            return "(REnum %d)" % self.enum_idx[key]
+        if key in self.struct_idx:
+            return "(RStruct %d)" % self.struct_idx[key]
+        raise OutOfModel("type-reference-" + ".".join(key))
+
+    def ftype(self, t):
+        dims = []
+        while t.has_field("array_type"):
+            at = t.array_type
+            if at.which_size == "automatic":
+                dims.append("LAuto")
+            else:
+                c = ir_util.constant_value(at.element_count)
+                dims.append("LDynamic" if c is None else "(LConst %s)" % _z(c))
+            t = at.base_type
+        dims.reverse()    # innermost first = source order
+        bits = None
+        if t.has_field("size_in_bits") and t.size_in_bits is not None:
+            bits = ir_util.constant_value(t.size_in_bits)
+            if bits is None:
+                raise OutOfModel("non-constant-explicit-size")
+        return "(mk_ftype %s %s [%s])" % (self.tref(t.atomic_type.reference),
+                                         "None" if bits is None else "(Some %s)" % _z(bits), "; ".join(dims)), t
+
+    def explicit(self, attrs, name):
+        for a in attrs:
+            if not a.is_default and a.name.text == name and not (a.back_end is not None and a.back_end.text):
+                return a
+        return None
+
+    def field(self, f):
+        name = coq_str(f.name.name.text)
+        at = self.attrs(f.attribute)
+        if ir_util.field_is_virtual(f):
+            return "(mk_field %s true None None 0 0 (mk_ftype (RPre PUInt) None []) None %s)" % (name, at)
+        st = ir_util.constant_value(f.location.start)
+        sz = ir_util.constant_value(f.location.size)
+        it = f.location.size.type.integer
+        if it.minimum_value in ("-infinity", "infinity", None, "") or it.maximum_value in ("-infinity", "infinity", None, ""):
+            raise OutOfModel("unbounded-field-size")
+        ft, _ = self.ftype(f.type)
+        bo = self.explicit(f.attribute, "byte_order")
+        bot = "None"
+        if bo is not None and bo.value.has_field("string_constant"):
+            bot = "(Some %s)" % _BORDER.get(bo.value.string_constant.text, "BNull")
+        elif bo is not None:
+            bot = "(Some BNull)"
+        o = lambda v: "None" if v is None else "(Some %s)" % _z(v)
+        return "(mk_field %s false %s %s %s %s %s %s %s)" % (name, o(st), o(sz), _z(it.minimum_value), _z(it.maximum_value), ft, bot, at)
+
+    def translate(self):
+        mod_default = self.default_border(self.mod.attribute)
+        for td in self.mod.type:
+            self.collect(td, [mod_default])
+        enums = []
+        for td in self.enums:
+            mb = self.explicit(td.attribute, "maximum_bits")
+            sg = self.explicit(td.attribute, "is_signed")
+            mbv = ir_util.constant_value(mb.value.expression) if mb is not None and mb.value.has_field("expression") else None
+            if isinstance(mbv, bool):
+                mbv = None
+            sgv = None
+            if sg is not None and sg.value.has_field("expression") and sg.value.expression.which_expression == "boolean_constant":
+                sgv = bool(sg.value.expression.boolean_constant.value)
+            elif sg is not None and sg.value.has_field("expression"):
+                c = ir_util.constant_value(sg.value.expression)
+                sgv = c if isinstance(c, bool) else None
+            vals = []
+            for v in td.enumeration.value:
+                c = ir_util.constant_value(v.value)
+                if c is None or isinstance(c, bool):
+                    raise OutOfModel("enum-value-not-an-integer-constant")
+                vals.append("(%s, %s)" % (coq_str(v.name.name.text), _z(c)))
+            enums.append("(mk_enum %s %s %s [%s] %s [%s])" % (
+                coq_str(td.name.name.text), "None" if mbv is None else "(Some %s)" % _z(mbv),
+                "None" if sgv is None else "(Some %s)" % ("true" if sgv else "false"),
+                "; ".join(vals), self.attrs(td.attribute),
+                "; ".join(self.attrs(v.attribute) for v in td.enumeration.value)))
+        structs = []
+        for td, path in self.structs:
+            fx = self.explicit(td.attribute, "fixed_size_in_bits")
+            fxv = ir_util.constant_value(fx.value.expression) if fx is not None and fx.value.has_field("expression") else None
+            if isinstance(fxv, bool):
+                fxv = None
+            params = []
+            for p in td.runtime_parameter:
+                pt = p.physical_type_alias
+                if pt.which_type != "atomic_type":
+                    raise OutOfModel("array-parameter")
+                b = ir_util.constant_value(pt.size_in_bits) if pt.has_field("size_in_bits") else None
+                params.append("(%s, %s)" % (self.tref(pt.atomic_type.reference), "None" if b is None else "Some %s" % _z(b)))
+            unit = int(td.addressable_unit)
+            if unit not in (1, 8):
+                raise TranslatorError("addressable unit %r" % unit)
+            structs.append("(mk_struct %s %s %s [%s] %s\n   [%s]\n   %s [%s])" % (
+                coq_str(td.name.name.text), "true" if td.name.is_anonymous else "false", unit,
+                "; ".join("None" if b is None else "Some %s" % b for b in path),
+                "None" if fxv is None else "(Some %s)" % _z(fxv),
+                ";\n    ".join(self.field(f) for f in td.structure.field),
+                self.attrs(td.attribute), "; ".join(params)))
+        return "(mk_module %s\n [%s]\n [%s])" % (self.attrs(self.mod.attribute), ";\n  ".join(enums), ";\n  ".join(structs))
+
+
+# messages of checks inside normalize_and_verify / check_constraints that the Layout model does not mirror
+UNMODELLED_PREFIXES = (
+    "Static references must", "Integer range of", "Constant value", "Potential range of", "Either all arguments",
+    "Attribute 'requires' is only allowed", "Back end specifier", "Expected '", "Only values '1'",
+    "Attribute 'expected_back_ends'",
+)
+
+
+def analyse_c14(args):
+    try:
+        return _analyse_c14(args)
+    except Exception:
+        return {"oom": "TRANSLATOR:harness exception " + traceback.format_exc()[-1500:], "coq": None,
+                "full": ("ok", None), "layout": ("accept", []), "harness_error": True}
+
+
+def _analyse_c14(args):
+    text, name, extra, repo = args
+    out = {"oom": None, "coq": None}
+    st, r = compile_emb(text, name=name, extra=extra, repo=repo)
+    out["full"] = ("ok", None) if st == "ok" else ("errors", error_lines(r)) if st == "errors" else ("crash", _crash_plain(r))
+    st0, ir = compile_emb(text, stop="normalize_and_verify", name=name, extra=extra, repo=repo)
+    if st0 != "ok":
+        out["layout"] = ("early", [])
+        out["oom"] = "rejected-before-attribute-checks" if st0 == "errors" else "crash-before-attribute-checks"
+        return out
+    st1, r1 = compile_emb(text, stop="set_write_methods", name=name, extra=extra, repo=repo)
+    if st1 == "crash":
+        out["layout"] = ("crash", _crash_plain(r1))
+    elif st1 == "errors":
+        lines = error_lines(r1)
+        modelled = [l for l in lines if not l[2].startswith(UNMODELLED_PREFIXES)]
+        out["layout"] = ("reject", modelled) if modelled else ("unmodelled-reject", lines)
+    else:
+        out["layout"] = ("accept", [])
+    try:
+        out["coq"] = LayoutTranslator(ir).translate()
     except OutOfModel as ex:
         out["oom"] = str(ex)
     except TranslatorError as ex:
